@@ -958,6 +958,41 @@ fn monitor_pairs(ctx: &mut Ctx) {
 				rig.callback(64);
 				rig.callback(64);
 			}
+			// ---- commands written to a track just before its handle is dropped still reach it when the track lives on (it persists
+			// until its sounds finish, or a track beneath it is kept)
+			{
+				let mut rig = base_rig(MainTrackBuilder::new());
+				rig.watch_alloc = false;
+				let by_child = r.chance(0.5);
+				let mut t = rig.mgr.add_sub_track(TrackBuilder::new().persist_until_sounds_finish(!by_child)).map_err(|_| "t")?;
+				let mut child = if by_child { Some(t.add_sub_track(TrackBuilder::new()).map_err(|_| "c")?) } else { None };
+				let data = crate::probes::dc_sound(SR, 64, 0.1).loop_region(..).panning(Panning(-1.0));
+				let _s = match child.as_mut() {
+					Some(c) => c.play(data),
+					None => t.play(data),
+				}
+				.map_err(|_| "play")?;
+				rig.callback(64);
+				rig.callback(64);
+				let v = r.f32_in(-30.0, -6.0);
+				let pause = r.chance(0.3);
+				if pause {
+					t.pause(inst());
+				} else {
+					t.set_volume(Decibels(v), inst());
+				}
+				drop(t);
+				rig.callback(64);
+				let o = rig.callback(64).to_vec();
+				let got = o[o.len() - 2];
+				let want = if pause { 0.0 } else { 0.1 * 2f32.sqrt() * Decibels(v).as_amplitude() };
+				if (got - want).abs() > 1e-5 {
+					return Err(format!("{} written to a track and the handle dropped in the same interval (the track lives on: {}): two callbacks later the output is {} instead of {} - the command was lost", if pause { "pause()".to_string() } else { format!("set_volume({} dB)", v) }, if by_child { "a track beneath it is kept" } else { "it persists until its sounds finish" }, got, want));
+				}
+			}
+			// ---- a later set() of a tweener replaces an earlier one that has not begun yet (delayed or clock start), also when its
+			// target is exactly the value the tweener holds (oracle shared with C17)
+			crate::props::c17::tweener_cancel_case(&mut r)?;
 			// ---- a command written between play() and the sound's first callback is in effect in that callback, wherever it plays
 			{
 				let mut rig = base_rig(MainTrackBuilder::new());
